@@ -301,7 +301,7 @@ class _AXILiteDownConverterWrite(LiteXModule):
 
         # Data path
         self.comb += [
-            slave.aw.addr.eq(master.aw.addr + counter*(dw_to//8)),
+            slave.aw.addr.eq(Cat(Constant(0, log2_int(dw_from//8)), master.aw.addr[log2_int(dw_from//8):]) + counter*(dw_to//8)),
             Case(counter, {i: slave.w.data.eq(master.w.data[i*dw_to:]) for i in range(ratio)}),
             Case(counter, {i: slave.w.strb.eq(master.w.strb[i*dw_to//8:]) for i in range(ratio)}),
             master.b.resp.eq(resp),
@@ -393,7 +393,7 @@ class _AXILiteDownConverterRead(LiteXModule):
         self.comb += master.r.data.eq(Cat(r_data[dw_to:], slave.r.data))
         # Connect address, resp
         self.comb += [
-            slave.ar.addr.eq(master.ar.addr + counter*(dw_to//8)),
+            slave.ar.addr.eq(Cat(Constant(0, log2_int(dw_from//8)), master.ar.addr[log2_int(dw_from//8):]) + counter*(dw_to//8)),
             master.r.resp.eq(resp),
         ]
 
